@@ -3,10 +3,12 @@ package c05
 import (
 	"encoding/json"
 	"fmt"
+	"os"
 	"sort"
 	"strconv"
 	"strings"
 	"sync"
+	"sync/atomic"
 	"testing"
 	"time"
 
@@ -141,8 +143,52 @@ type tally struct {
 	malformed []string
 }
 
-func runCase(t *rapid.T, replay *scripts) {
-	p := server(t)
+// client is one caller of the server: a TCP connection, or the embedded API of an in-process server.
+type client interface {
+	Do(args ...string) sut.Reply
+	Close()
+}
+
+type embClient struct{ s *sut.Server }
+
+func (e embClient) Do(args ...string) sut.Reply { return e.s.DoInline(args...) }
+func (e embClient) Close()                      {}
+
+func runCase(t *rapid.T, replay *scripts) { runStress(t, replay, false) }
+
+// runStress runs one stress case against the long-lived subprocess server over TCP, or (embedded) against a fresh
+// in-process server whose callers are goroutines using the embedded API in tight loops: far more contention per
+// second than TCP round trips allow, at the price that a crash of the server is a crash of the check process (the
+// case is journalled first, and the driver reports such a crash as a violation with the journal as replay).
+func runStress(t *rapid.T, replay *scripts, embedded bool) {
+	var p *sut.Proc
+	var emb *sut.Server
+	var embOpts sut.Opts
+	leg := "stress"
+	if embedded {
+		leg = "embedded"
+		embOpts = sut.Opts{DataDir: sut.NewScratchDir("c05e"), AOFSync: "no", Policy: "allkeys-lru", MaxMemory: 1 << 40, EvictionInterval: 2 * time.Millisecond, RealClock: true}
+		defer os.RemoveAll(embOpts.DataDir)
+		var err error
+		emb, err = sut.New(embOpts)
+		if err != nil {
+			t.Fatalf("HARNESS-ERROR: %v", err)
+		}
+		defer func() { emb.Close() }()
+	} else {
+		p = server(t)
+	}
+	dialClient := func() (client, error) {
+		if embedded {
+			return embClient{emb}, nil
+		}
+		c, err := sut.Dial(p.Opts.Port)
+		if err != nil {
+			return nil, err
+		}
+		c.Timeout = 15 * time.Second
+		return c, nil
+	}
 	var s scripts
 	if replay != nil {
 		s = *replay
@@ -152,15 +198,18 @@ func runCase(t *rapid.T, replay *scripts) {
 	fail := func(format string, a ...any) {
 		msg := fmt.Sprintf(format, a...)
 		b, _ := json.MarshalIndent(map[string]any{"property": "C05", "scripts": s, "failure": msg}, "", " ")
-		pth := engine.WriteRaw("C05", "stress", b)
+		pth := engine.WriteRaw("C05", leg, b)
 		t.Fatalf("violation (replay %s): %s", pth, msg)
 	}
-	admin, err := sut.Dial(p.Opts.Port)
+	if embedded {
+		jb, _ := json.MarshalIndent(map[string]any{"property": "C05", "leg": "embedded", "scripts": s, "failure": "the check process died while this case was running"}, "", " ")
+		_ = os.WriteFile("inflight.json", jb, 0o644)
+	}
+	admin, err := dialClient()
 	if err != nil {
 		t.Fatalf("HARNESS-ERROR: dial: %v", err)
 	}
-	admin.Timeout = 10 * time.Second
-	defer admin.Close()
+	defer func() { admin.Close() }()
 	admin.Do("FLUSHALL")
 	admin.Do("RPUSH", "lb", "seed") // LMOVE needs an existing destination in this server
 	tl := &tally{pushed: map[string]int{}, popped: map[string]int{}, sadd: map[string]bool{}, laPushed: map[string]bool{}}
@@ -170,11 +219,10 @@ func runCase(t *rapid.T, replay *scripts) {
 		wg.Add(1)
 		go func() {
 			defer wg.Done()
-			c, err := sut.Dial(p.Opts.Port)
+			c, err := dialClient()
 			if err != nil {
 				return
 			}
-			c.Timeout = 10 * time.Second
 			defer c.Close()
 			for i := 0; ; i++ {
 				select {
@@ -196,11 +244,10 @@ func runCase(t *rapid.T, replay *scripts) {
 		cw.Add(1)
 		go func(ci int, ops []cop) {
 			defer cw.Done()
-			c, err := sut.Dial(p.Opts.Port)
+			c, err := dialClient()
 			if err != nil {
 				return
 			}
-			c.Timeout = 15 * time.Second
 			defer c.Close()
 			private := map[string]string{} // key -> value last written without an expiry ("" = may be absent)
 			for _, o := range ops {
@@ -279,6 +326,10 @@ func runCase(t *rapid.T, replay *scripts) {
 	case <-done:
 	case <-time.After(sut.Patience(60 * time.Second)):
 		close(stop)
+		if embedded {
+			// callers of the embedded API that never return: there is no process to kill and no way to continue
+			fail("the embedded callers made no progress for %v: the server hangs", sut.Patience(60*time.Second))
+		}
 		if !p.Alive() {
 			trace := p.CrashTrace()
 			proc = nil
@@ -304,7 +355,7 @@ func runCase(t *rapid.T, replay *scripts) {
 	}
 	close(stop)
 	wg.Wait()
-	if !p.Alive() || p.WaitExit(100*time.Millisecond) {
+	if !embedded && (!p.Alive() || p.WaitExit(100*time.Millisecond)) {
 		trace := p.CrashTrace()
 		proc = nil
 		fail("the server process died under concurrent clients: %s", firstLines(trace, 16))
@@ -404,11 +455,47 @@ func runCase(t *rapid.T, replay *scripts) {
 	if len(problems) > 0 {
 		fail("%s", strings.Join(problems, "; "))
 	}
+	// Expiry churn burst (embedded leg, one case in three): many keys expire at once while the background sampler
+	// is busy removing them, and their owners write them again without an expiry: every such write is
+	// acknowledged and must stay.
+	if embedded && s.Restart {
+		var bw sync.WaitGroup
+		var lost atomic.Int64
+		var firstLost atomic.Value
+		for g := 0; g < 4; g++ {
+			bw.Add(1)
+			go func(g int) {
+				defer bw.Done()
+				c := embClient{emb}
+				for round := 0; round < 2; round++ {
+					for k := 0; k < 400; k++ {
+						c.Do("SET", fmt.Sprintf("burst%d-%d", g, k), "volatile", "PX", "1")
+					}
+					time.Sleep(2 * time.Millisecond)
+					for k := 0; k < 400; k++ {
+						c.Do("SET", fmt.Sprintf("burst%d-%d", g, k), fmt.Sprintf("fresh%d", round))
+					}
+					for k := 0; k < 400; k++ {
+						key := fmt.Sprintf("burst%d-%d", g, k)
+						if got, _ := c.Do("GET", key).Val.Text(); got != fmt.Sprintf("fresh%d", round) {
+							lost.Add(1)
+							firstLost.CompareAndSwap(nil, fmt.Sprintf("%s reads %q", key, got))
+						}
+					}
+				}
+			}(g)
+		}
+		bw.Wait()
+		if n := lost.Load(); n > 0 {
+			fail("expiry churn: %d of 3200 values written without an expiry over keys whose expiry had just passed (acknowledged, no other writer) were gone afterwards while the background expiry sampler was running, e.g. %v", n, firstLost.Load())
+		}
+		rec.Class("embedded: expiry churn burst under a running sampler")
+	}
 	// Restart leg (one case in three): the order in which the commands took effect is also the order in which
 	// they were logged, so a server restarted from the append-only log (after the process was killed) serves the
 	// dataset the clients left behind. (The background SAVE/REWRITEAOF loop has been stopped: no rewrite is in flight.)
 	if s.Restart {
-		snapshotOf := func(c *sut.Conn) string {
+		snapshotOf := func(c client) string {
 			var parts []string
 			for _, q := range [][]string{{"GET", "cnt"}, {"GET", "str"}, {"LRANGE", "lst", "0", "-1"}, {"SMEMBERS", "set"}, {"HGETALL", "hsh"}, {"ZRANGE", "zst", "0", "-1", "WITHSCORES"},
 				{"GET", "p1"}, {"GET", "p2"}, {"LRANGE", "la", "0", "-1"}, {"LRANGE", "lb", "0", "-1"}} {
@@ -426,28 +513,44 @@ func runCase(t *rapid.T, replay *scripts) {
 			return strings.Join(parts, "; ")
 		}
 		before := snapshotOf(admin)
-		opts := p.Opts
-		p.Kill()
-		proc = nil
-		opts.Port, opts.RestoreAOF = 0, true
-		np, err := sut.StartProc(opts)
-		if err != nil {
-			fail("the server did not come up again from its append-only log after being killed: %v", err)
+		var after string
+		if embedded {
+			emb.WaitAsync()
+			emb.Close()
+			o2 := embOpts
+			o2.RestoreAOF = true
+			ns, err := sut.New(o2)
+			if err != nil {
+				fail("the server did not come up again from its append-only log: %v", err)
+			}
+			emb = ns
+			admin = embClient{emb}
+			rec.Add("server_restarts", 1)
+			after = snapshotOf(admin)
+		} else {
+			opts := p.Opts
+			p.Kill()
+			proc = nil
+			opts.Port, opts.RestoreAOF = 0, true
+			np, err := sut.StartProc(opts)
+			if err != nil {
+				fail("the server did not come up again from its append-only log after being killed: %v", err)
+			}
+			proc = np
+			rec.Add("server_restarts", 1)
+			c2, err := sut.Dial(np.Opts.Port)
+			if err != nil {
+				t.Fatalf("HARNESS-ERROR: dial after restart: %v", err)
+			}
+			c2.Timeout = 10 * time.Second
+			after = snapshotOf(c2)
+			c2.Do("REWRITEAOF") // keeps the log of the long-lived server short
+			c2.Close()
 		}
-		proc = np
-		rec.Add("server_restarts", 1)
-		c2, err := sut.Dial(np.Opts.Port)
-		if err != nil {
-			t.Fatalf("HARNESS-ERROR: dial after restart: %v", err)
-		}
-		c2.Timeout = 10 * time.Second
-		after := snapshotOf(c2)
-		c2.Do("REWRITEAOF") // keeps the log of the long-lived server short
-		c2.Close()
 		if after != before {
-			fail("after the concurrent run the process was killed and restarted from the append-only log: the dataset differs from the one the clients left behind.\nbefore: %s\nafter:  %s", trunc(before, 900), trunc(after, 900))
+			fail("after the concurrent run the server was stopped (TCP leg: killed) and restarted from the append-only log: the dataset differs from the one the clients left behind.\nbefore: %s\nafter:  %s", trunc(before, 900), trunc(after, 900))
 		}
-		rec.Class("stress: kill + restart from the append-only log")
+		rec.Class(leg + ": restart from the append-only log")
 	}
 	shared := len(s.Clients) >= 2
 	b, _ := json.Marshal(s)
@@ -456,7 +559,7 @@ func runCase(t *rapid.T, replay *scripts) {
 		total += len(c)
 	}
 	rec.Add("commands_executed", int64(total))
-	rec.Case(string(b), shared, map[string]any{"clients": len(s.Clients), "commands": total, "background_save_rewrite": s.Background, "first_commands_of_client_0": renderOps(s.Clients[0], 6)})
+	rec.Case(leg+":"+string(b), shared, map[string]any{"leg": leg, "clients": len(s.Clients), "commands": total, "background_save_rewrite": s.Background, "first_commands_of_client_0": renderOps(s.Clients[0], 6)})
 }
 
 func renderOps(ops []cop, n int) []string {
@@ -535,6 +638,12 @@ func TestReplay(t *testing.T) {
 			fmt.Printf("VIOLATION property=C05 replay=%s\n", p)
 		}
 	}()
+	if rf.Leg == "embedded" {
+		for i := 0; i < 3 && !t.Failed(); i++ {
+			rapid.Check(t, func(t *rapid.T) { runStress(t, &rf.Scripts, true) })
+		}
+		return
+	}
 	if rf.Leg == "sched" && rf.Sched != nil {
 		rapid.Check(t, func(t *rapid.T) { schedProperty(t, rf.Sched) })
 		return
@@ -543,4 +652,12 @@ func TestReplay(t *testing.T) {
 	for i := 0; i < 5 && !t.Failed(); i++ {
 		rapid.Check(t, func(t *rapid.T) { runCase(t, &rf.Scripts) })
 	}
+}
+
+func TestEmbeddedStress(t *testing.T) {
+	if common.ReplayPath() != "" {
+		t.Skip()
+	}
+	defer common.Verdict(t, rec, "embedded")
+	rapid.Check(t, func(t *rapid.T) { runStress(t, nil, true) })
 }
